@@ -1018,6 +1018,7 @@ pub enum Which {
 pub struct St {
     /// unique id of this snapshot (key of the per-thread cache of live objects)
     sid: u64,
+    depth: usize,
     mem: Arc<Either>,
     redb: Arc<Pages>,
     pub model: Model,
@@ -1037,6 +1038,9 @@ pub struct Env {
     pub extended_checked: AtomicU64,
     pub image_bytes_max: AtomicU64,
     pub machinery: Mutex<Option<String>>,
+    pub replaying: bool,
+    pub deadline: std::time::Instant,
+    pub skipped: AtomicU64,
     next_sid: AtomicU64,
     pub thaws: AtomicU64,
     pub reused: AtomicU64,
@@ -1062,6 +1066,9 @@ impl Env {
             extended_checked: AtomicU64::new(0),
             image_bytes_max: AtomicU64::new(0),
             machinery: Mutex::new(None),
+            replaying: false,
+            deadline: std::time::Instant::now() + Duration::from_secs(86_400),
+            skipped: AtomicU64::new(0),
             next_sid: AtomicU64::new(1),
             thaws: AtomicU64::new(0),
             reused: AtomicU64::new(0),
@@ -1104,7 +1111,7 @@ impl Env {
             let key = state_key(&obs_mem, &obs_redb);
             let (mem, redb) = live.snapshot(InMemoryStore::new()).await;
             live.discard().await;
-            Ok((St { sid: 0, mem, redb, model: Model::default(), obs_mem: Arc::new(obs_mem), obs_redb: Arc::new(obs_redb) }, key))
+            Ok((St { sid: 0, depth: 0, mem, redb, model: Model::default(), obs_mem: Arc::new(obs_mem), obs_redb: Arc::new(obs_redb) }, key))
         });
         match r {
             Ok(x) => x,
@@ -1124,6 +1131,17 @@ impl Env {
     /// earlier operations left an effect that no query shows, which is reported as a C20
     /// violation of its own.
     pub fn step(&self, st: &St, op: &Op) -> Step<St> {
+        if std::time::Instant::now() > self.deadline {
+            // hard wall cap: the transition is skipped (and counted; the run is then
+            // reported as not exhaustive)
+            self.skipped.fetch_add(1, Ordering::Relaxed);
+            return Step {
+                next: St { sid: st.sid, depth: st.depth + 1, mem: st.mem.clone(), redb: st.redb.clone(), model: st.model.clone(), obs_mem: st.obs_mem.clone(), obs_redb: st.obs_redb.clone() },
+                key: state_key(&st.obs_mem, &st.obs_redb),
+                class: "skipped:wall-cap".into(),
+                violations: vec![],
+            };
+        }
         block(async {
             let cached = CACHE.with(|c| c.borrow_mut().take());
             let live = match cached {
@@ -1206,7 +1224,7 @@ impl Env {
                 Err(e) => {
                     self.machinery(format!("cannot restore a snapshot: {e}"));
                     return Out {
-                        next: St { sid: st.sid, mem: st.mem.clone(), redb: st.redb.clone(), model: st.model.clone(), obs_mem: st.obs_mem.clone(), obs_redb: st.obs_redb.clone() },
+                        next: St { sid: st.sid, depth: st.depth + 1, mem: st.mem.clone(), redb: st.redb.clone(), model: st.model.clone(), obs_mem: st.obs_mem.clone(), obs_redb: st.obs_redb.clone() },
                         key: state_key(&st.obs_mem, &st.obs_redb),
                         class: "machinery".into(),
                         all: vec![],
@@ -1302,8 +1320,10 @@ impl Env {
         let both_failed = got_mem.failed() && got_redb.failed();
         let mut dirty = !(both_failed && unchanged);
         // the successor: the parent itself when nothing changed (same key, dropped by the
-        // engine's de-duplication), else a snapshot of the objects as they are now
-        let (mem, redb) = if dirty {
+        // engine's de-duplication), else a snapshot of the objects as they are now (not
+        // needed at the last level, whose states are never expanded)
+        let last_level = st.depth + 1 >= self.bd.depth && !self.replaying;
+        let (mem, redb) = if dirty && !last_level {
             let parent_mem = st.mem.left().expect("left").async_clone().await;
             live.snapshot(parent_mem).await
         } else {
@@ -1366,6 +1386,7 @@ impl Env {
         Out {
             next: St {
                 sid: self.next_sid.fetch_add(1, Ordering::Relaxed),
+                depth: st.depth + 1,
                 mem,
                 redb,
                 model,
@@ -1434,17 +1455,19 @@ fn expand_runs(s: &str) -> BTreeSet<String> {
 // entry point of the three binaries
 
 pub const RULE: &str = "breadth-first search over ALL operation histories up to the depth bound from the empty store, \
-de-duplicated on the total observation of both backends (answers of every query over heights 0..=N+1 and the hashes of \
-all fixture headers + one unknown hash). Fixture: honest chain A1..AN and fork B3..BN (B3 child of A2); N=5 quick / 6 thorough. \
-Alphabet per state: insert (through the real VerifiedExtendedHeaders::try_from) of every chain of adjacent fixture headers of \
-length <= L (L=3 quick / 4 thorough; pure A, pure B and A->B across the fork point); invalid batches refused by try_from: empty, \
-every such chain reversed, with one element doubled, with one interior element missing (gap), continued by the wrong chain's \
-header (A/B mixed); unverified batches (new_unchecked) whose only defect is a duplicated hash: every chain of length 2..=D \
-(D=2 quick / 3 thorough) that the model accepts in this state with each stored header inserted at each interior position and each \
-own element repeated at each later position that keeps first/last; remove_height(h), mark_as_sampled(h), \
-update_sampling_metadata(h, {c0}|{c1}|{c0,c1}) for every h in 0..=N+1. Depth 3 quick / 4 thorough. Every transition is executed \
-on InMemoryStore and RedbStore (both behind EitherStore) and on the reference model; a state = distinct total observation; \
-transitions = executions of the real operation on both backends";
+de-duplicated on the total observation of both backends (answers of every query over heights 0..=N+1 and over the hashes of all \
+fixture headers + one unknown hash). Fixture: honest chain A1..AN and fork B3..BN (B3 child of A2). Alphabet per state: insert \
+(through the real VerifiedExtendedHeaders::try_from) of every chain of adjacent fixture headers of length <= L (pure A, pure B, and \
+A->B across the fork point); batches that try_from must refuse, derived from every chain of length <= I: reversed, one element \
+doubled, continued by the other chain's header (A/B mixed), one interior element missing (gap, from chains of length <= I+1), and \
+the empty batch; unverified batches (unsafe new_unchecked) whose only defect is a duplicated hash: every chain of length 2..=D that \
+the model accepts in this state, with each stored header inserted at each interior position and each own element repeated at each \
+later position that keeps first/last; remove_height(h), mark_as_sampled(h), update_sampling_metadata(h, {c0}|{c1}|{c0,c1}) for \
+every h in 0..=N+1. quick: N=5 L=3 I=2 D=2 depth 3. thorough: two searches, N=6 L=4 I=4 D=3 depth 3 and N=5 L=3 I=2 D=2 depth 5. \
+Every transition is executed on InMemoryStore and RedbStore (both behind EitherStore) and on the reference model; after every \
+rejected batch whose correction the model accepts, the corrected batch is applied to the same objects. state = distinct total \
+observation; transition = one execution of the real operation on both backends (counted by the engine; see `searches` for the \
+per-search counts)";
 
 pub const ASSUMPTIONS: &[&str] = &[
     "header bytes, keys and CIDs are payload (random generator / VERIF_SEED); oracles use identities (chain, height) only; the fixture's parent relation is validated against the real verify_adjacent for every ordered pair at start-up",
@@ -1455,73 +1478,103 @@ pub const ASSUMPTIONS: &[&str] = &[
     "histories longer than the depth bound, more than two chains, and heights above N+1 are outside the bound",
 ];
 
+fn bounds(n: u64, max_len: usize, max_dup_len: usize, max_inv_len: usize, depth: usize) -> Bounds {
+    Bounds { n, max_len, max_dup_len, max_inv_len, depth, max_states: 3_000_000, wall_cap: Duration::from_secs(86_400) }
+}
+
 pub fn run(id: &str, which: Which) -> ! {
     tune_malloc();
     let ctx = Ctx::from_args(id);
-    let quick = ctx.quick();
-    let bd = Bounds {
-        n: if quick { 5 } else { 6 },
-        max_len: if quick { 3 } else { 4 },
-        max_dup_len: if quick { 2 } else { 3 },
-        max_inv_len: if quick { 2 } else { 4 },
-        depth: std::env::var("LV_STORE_DEPTH").ok().and_then(|s| s.parse().ok()).unwrap_or(if quick { 3 } else { 4 }),
-        max_states: if quick { 200_000 } else { 2_000_000 },
-        wall_cap: Duration::from_secs(if quick { 50 } else { 780 }),
+    let depth_override: Option<usize> = std::env::var("LV_STORE_DEPTH").ok().and_then(|s| s.parse().ok());
+    // (bounds, share of the wall budget after which its transitions are skipped)
+    let (searches, budget): (Vec<Bounds>, u64) = if ctx.replay.is_some() {
+        (vec![bounds(6, 4, 3, 4, 0)], 86_400)
+    } else if ctx.quick() {
+        (vec![bounds(5, 3, 2, 2, depth_override.unwrap_or(3))], 55)
+    } else {
+        (
+            vec![
+                bounds(6, 4, 3, 4, depth_override.unwrap_or(3)),
+                bounds(5, 3, 2, 2, depth_override.map(|d| d + 2).unwrap_or(5)),
+            ],
+            840,
+        )
     };
-    let fx = match Fixture::new(bd.n, ctx.seed) {
-        Ok(f) => f,
-        Err(e) => machinery_error(&ctx.id, &e),
-    };
-    let env = Env::new(fx, bd, which);
+    let deadline = ctx.start + Duration::from_secs(budget);
     let mut rep = Report::new();
     rep.sample_cap = 8;
+    let mut per_search: Vec<Value> = vec![];
+    let prof_on = std::env::var("LV_STORE_PROF").is_ok();
 
-    if let Some(case) = ctx.replay_case() {
-        let hist: Vec<Op> = match serde_json::from_value(case["history"].clone()) {
-            Ok(h) => h,
-            Err(e) => machinery_error(&ctx.id, &format!("bad replay history: {e}")),
+    for bd in searches {
+        let fx = match Fixture::new(bd.n, ctx.seed) {
+            Ok(f) => f,
+            Err(e) => machinery_error(&ctx.id, &e),
         };
-        let (mut st, _) = env.init();
-        for (i, op) in hist.iter().enumerate() {
-            let s = env.step(&st, op);
-            rep.case(s.key, &s.class, true);
-            for (k, what) in s.violations {
-                rep.violation(&k, what, json!({ "history": &hist[..=i] }));
+        let mut env = Env::new(fx, bd, which);
+        env.deadline = deadline;
+        let (t0, s0, tr0) = (ctx.elapsed_s(), rep.states, rep.transitions);
+        if let Some(case) = ctx.replay_case() {
+            env.replaying = true;
+            let hist: Vec<Op> = match serde_json::from_value(case["history"].clone()) {
+                Ok(h) => h,
+                Err(e) => machinery_error(&ctx.id, &format!("bad replay history: {e}")),
+            };
+            let (mut st, _) = env.init();
+            for (i, op) in hist.iter().enumerate() {
+                let s = env.step(&st, op);
+                rep.case(s.key, &s.class, true);
+                for (k, what) in s.violations {
+                    rep.violation(&k, what, json!({ "history": &hist[..=i] }));
+                }
+                st = s.next;
             }
-            st = s.next;
+        } else {
+            let (init, key) = env.init();
+            let cfg = BfsConfig { max_depth: env.bd.depth, max_states: env.bd.max_states, wall_cap: env.bd.wall_cap, dedup: true };
+            bfs(init, key, &cfg, |s| env.ops(s), |s, o| env.step(s, o), &mut rep);
+            rayon::broadcast(|_| env.flush_cache());
         }
-    } else {
-        let (init, key) = env.init();
-        let cfg = BfsConfig { max_depth: env.bd.depth, max_states: env.bd.max_states, wall_cap: env.bd.wall_cap, dedup: true };
-        bfs(init, key, &cfg, |s| env.ops(s), |s, o| env.step(s, o), &mut rep);
-        rayon::broadcast(|_| env.flush_cache());
+        env.flush_cache();
+        if let Some(m) = env.machinery.lock().unwrap().clone() {
+            machinery_error(&ctx.id, &m);
+        }
+        let skipped = env.skipped.load(Ordering::Relaxed);
+        if skipped > 0 {
+            rep.cap_hit(&format!(
+                "wall cap {budget}s: {skipped} transitions of the search N={} depth={} were skipped (deepest level incomplete)",
+                env.bd.n, env.bd.depth
+            ));
+            // skipped transitions are not executions of the real code
+            rep.transitions -= skipped;
+            rep.traces -= skipped;
+            rep.evaluations -= skipped;
+            rep.classes.remove("skipped:wall-cap");
+        }
+        let prof: Vec<f64> = env.prof.iter().map(|a| a.load(Ordering::Relaxed) as f64 / 1e9).collect();
+        per_search.push(json!({
+            "bounds": {"N": env.bd.n, "L": env.bd.max_len, "D": env.bd.max_dup_len, "I": env.bd.max_inv_len, "depth": env.bd.depth},
+            "states": rep.states - s0,
+            "transitions": rep.transitions - tr0,
+            "skipped_by_wall_cap": skipped,
+            "wall_s": ctx.elapsed_s() - t0,
+            "static_alphabet_size": env.statics.len(),
+            "corrected_batches_tried": env.corrections.load(Ordering::Relaxed),
+            "corrected_batches_applied_after_the_rejection": env.corrections_accepted.load(Ordering::Relaxed),
+            "snapshot_restores": env.thaws.load(Ordering::Relaxed),
+            "transitions_on_reused_live_objects": env.reused.load(Ordering::Relaxed),
+            "savepoint_rollbacks": env.rollbacks.load(Ordering::Relaxed),
+            "reruns_on_fresh_restore": env.reruns.load(Ordering::Relaxed),
+            "states_with_extended_get_range_queries": env.extended_checked.load(Ordering::Relaxed),
+            "redb_image_nonzero_bytes_max": env.image_bytes_max.load(Ordering::Relaxed),
+            "thread_seconds_thaw_apply_observe_extended_c21_correction_putback": prof,
+        }));
+        if prof_on {
+            eprintln!("search {}", per_search.last().unwrap());
+        }
     }
-    env.flush_cache();
-    if let Some(m) = env.machinery.lock().unwrap().clone() {
-        machinery_error(&ctx.id, &m);
-    }
-    rep.extra("static_alphabet_size", json!(env.statics.len()));
-    rep.extra("corrected_batches_tried", json!(env.corrections.load(Ordering::Relaxed)));
-    rep.extra("corrected_batches_expected_ok", json!(env.corrections_accepted.load(Ordering::Relaxed)));
-    rep.extra("snapshot_restores", json!(env.thaws.load(Ordering::Relaxed)));
-    rep.extra("transitions_on_reused_live_objects", json!(env.reused.load(Ordering::Relaxed)));
-    rep.extra("savepoint_rollbacks", json!(env.rollbacks.load(Ordering::Relaxed)));
-    rep.extra("reruns_on_fresh_restore", json!(env.reruns.load(Ordering::Relaxed)));
-    rep.extra("states_with_extended_get_range_queries", json!(env.extended_checked.load(Ordering::Relaxed)));
-    rep.extra("redb_image_nonzero_bytes_max", json!(env.image_bytes_max.load(Ordering::Relaxed)));
-    let prof: Vec<f64> = env.prof.iter().map(|a| a.load(Ordering::Relaxed) as f64 / 1e9).collect();
-    rep.extra("thread_seconds_thaw_apply_observe_extended_c21_correction_putback", json!(prof));
-    if std::env::var("LV_STORE_PROF").is_ok() {
-        eprintln!("prof (s) thaw/apply/observe/extended/c21/correction/putback: {prof:?}");
-        eprintln!(
-            "open: db {:.3}s store-new {:.3}s count {}  image bytes max {}",
-            OPEN_NS[0].load(Ordering::Relaxed) as f64 / 1e9,
-            OPEN_NS[1].load(Ordering::Relaxed) as f64 / 1e9,
-            OPEN_NS[2].load(Ordering::Relaxed),
-            env.image_bytes_max.load(Ordering::Relaxed)
-        );
-    }
-    rep.extra("bounds", json!({"N": env.bd.n, "L": env.bd.max_len, "D": env.bd.max_dup_len, "depth": env.bd.depth}));
+    rep.extras.remove("bfs_unexpanded_frontier");
+    rep.extra("searches", Value::Array(per_search));
     rep.extra("oracle", Value::String(match which {
         Which::C19 => "C19: result kind + total observation of both backends equal the reference model; sampled within stored; pruned disjoint from stored",
         Which::C20 => "C20: every failing transition leaves the total observation of that backend unchanged; the corrected batch is then accepted whenever the model accepts it",
